@@ -255,6 +255,12 @@ func cmdCheck(args []string) int {
 		opts.Hints = NewHintDB()
 		opts.Record = *record
 	}
+	opts.Short = map[string]bool{}
+	for _, kf := range loadKnown().Findings {
+		if !strings.HasSuffix(kf.Obligation, "*") {
+			opts.Short[kf.Obligation] = true
+		}
+	}
 	Discharge(vcs, opts)
 	if opts.Hints != nil && opts.Record {
 		if err := opts.Hints.Save(); err != nil {
@@ -401,7 +407,9 @@ func cmdCheck(args []string) int {
 	ev := map[string]any{
 		"property_id": pid, "tier": *tier, "seed": seed, "level": "proof",
 		"coverage": map[string]any{
-			"obligations": nObl, "discharged": nOK,
+			// obligations listed as known findings are not claimed as proved: they are counted apart
+			"obligations": nObl - len(knownSeen), "discharged": nOK,
+			"known_finding_obligations_not_discharged": len(knownSeen),
 			"checker_cmd":              fmt.Sprintf("/verif/bin/govc check -p %s -tier %s", pid, *tier),
 			"trusted_base":             tb,
 			"functions_under_contract": funcs,
@@ -436,7 +444,13 @@ func cmdCheck(args []string) int {
 			fmt.Printf("  ... and %d more failed obligations (all are listed in the evidence and replay files)\n", len(fails)-i)
 			break
 		}
-		fmt.Printf("  failed: %s [%s] %s %s %s\n", f.Obligation, f.Status, f.Where, trunc(f.Desc, 120), trunc(f.Reason, 400))
+		word := "failed"
+		for _, kl := range knownSeen {
+			if strings.HasSuffix(kl, "["+f.Obligation+"]") {
+				word = "known finding, not discharged"
+			}
+		}
+		fmt.Printf("  %s: %s [%s] %s %s %s\n", word, f.Obligation, f.Status, f.Where, trunc(f.Desc, 120), trunc(f.Reason, 400))
 	}
 	for i, l := range vioLines {
 		if i >= 15 {
